@@ -13,6 +13,7 @@ SEEDS = {
     'C12-jsonpath-parser-slice-reset': ('C12', 'jsonpath_slice_parse'), 'C01-grisu-pow2-lower-boundary': ('C01', 'grisu'), 'C18-csv-minimal-quote-linebreak': ('C18', 'csv_quote'),
     'C02-wchar-is-digit-truncation': ('C02', 'digit_classes'), 'C14-add-dash-prefix': ('C14', 'jsonpointer'), 'C07-half-neg-infinity': ('C07', 'half'),
     'C09-try-emplace-hint-skip': ('C09', 'sorted_object_insert'),
+    'C13-jmespath-step-slice-reset': ('C13', 'jmespath_slice_parse'),
     'C03-fals-cursor-mode': ('C03', 'json_literals'), 'C04-grisu-boundary-shift': ('C04', 'grisu'), 'C10-source-reader-claimed-length': ('C10', 'source_reader'),
 }
 only = sys.argv[1:]
